@@ -2926,15 +2926,22 @@ class TensorDictBase(MutableMapping):
             )
         if not isinstance(new_batch_size, torch.Size):
             new_batch_size = torch.Size(new_batch_size)
+        # check first: nothing is modified when the new batch size is rejected
+        self._check_new_batch_size(new_batch_size)
+        batch_dims = len(new_batch_size)
         for key, value in self.items():
             if _is_tensor_collection(type(value)):
-                if len(value.batch_size) < len(new_batch_size):
+                # nested collections with fewer dims, and nested collections without content
+                # whose batch size does not extend the new one, are given the new batch size
+                if (
+                    len(value.batch_size) < batch_dims
+                    or value.batch_size[:batch_dims] != new_batch_size
+                ):
                     # document as edge case
                     value.batch_size = new_batch_size
                     self._set_str(
                         key, value, inplace=True, validated=True, non_blocking=False
                     )
-        self._check_new_batch_size(new_batch_size)
         has_names = self._has_names()
         if has_names:
             # if the tensordict has dim names and the new batch-size has more dims,
@@ -6835,6 +6842,16 @@ class TensorDictBase(MutableMapping):
                             sub_keys_to_update = _prune_selected_keys(
                                 keys_to_update, firstkey
                             )
+                            if (
+                                update_batch_size
+                                and _is_tensor_collection(type(value))
+                                and not target._lazy
+                                and target.is_empty()
+                                and value.batch_size[: self.batch_dims]
+                                == self.batch_size
+                            ):
+                                # a destination without content takes the batch size of its source
+                                target.batch_size = value.batch_size
                             target.update(
                                 value,
                                 inplace=inplace,
@@ -6844,6 +6861,14 @@ class TensorDictBase(MutableMapping):
                                 update_batch_size=update_batch_size,
                                 ignore_lock=ignore_lock,
                             )
+                            if (
+                                update_batch_size
+                                and target.batch_size[: self.batch_dims]
+                                != self.batch_size
+                            ):
+                                # the nested destination was given the batch size of its source:
+                                # the batch size of self must be derived again
+                                batch_size_changed = True
                         continue
                 # A tensor collection may still be a leaf so we need to duplicate the logic here
                 if (
@@ -11360,9 +11385,23 @@ class TensorDictBase(MutableMapping):
     def _check_new_batch_size(self, new_size: torch.Size) -> None:
         batch_dims = len(new_size)
         for key, tensor in self.items():
-            if _shape(tensor)[:batch_dims] != new_size and not (
-                _is_tensor_collection(type(tensor)) and tensor.is_empty()
+            if _is_tensor_collection(type(tensor)) and (
+                len(tensor.batch_size) < batch_dims
+                or (tensor.batch_size[:batch_dims] != new_size and tensor.is_empty())
             ):
+                # this nested collection will be given the new batch size: its own
+                # content must be compatible with it
+                if getattr(tensor, "_lazy", False):
+                    raise RuntimeError(
+                        f"the batch size of the lazy {type(tensor).__name__} {key} "
+                        f"cannot be changed to {new_size}."
+                    )
+                if not _pass_through(tensor):
+                    if _is_tensorclass(type(tensor)):
+                        tensor = tensor._tensordict
+                    tensor._check_new_batch_size(new_size)
+                continue
+            if _shape(tensor)[:batch_dims] != new_size:
                 raise RuntimeError(
                     f"the {type(tensor).__name__} {key} has shape {_shape(tensor)} which "
                     f"is incompatible with the batch-size {new_size}."
